@@ -7,7 +7,7 @@ THEOREMS = ["lz_roundtrip", "lz_empty_iff", "lz_no_separator", "lz_small_mml_pan
             "lz_roundtrip_any_index", "read_int_append_int", "sym_ok_range"]
 RULE = ("cases: enc mml ref tgt (new, prepare, encode, then the decompressor's empty-delta wrapper around decode), "
         "dec mml ref stream (decode of an arbitrary/malformed stream, panics are outcomes), enc0 mml tgt (encode without "
-        "prepare), hash v. exhaustive: every (ref, tgt) over {0,1} up to length 6 (7 thorough) and over {0,1,4}, {0,4,30} up "
+        "prepare), est mml ref tgt bound (estimate), cost mml ref tgt prefix (get_coding_cost_vector), hash v. exhaustive: every (ref, tgt) over {0,1} up to length 6 (7 thorough) and over {0,1,4}, {0,4,30} up "
         "to length 4 (5 thorough, sampled 6) with mml 4..6; N runs 1..6 at every position class; targets shorter than the "
         "key; random and mutation-derived pairs (SNP, indel, N run, IUPAC 5..15, code 30, block moves, prefix/suffix, equal) "
         "up to 3 kB (30 kB thorough), mml 5..32 (+4); structured-random and byte-mutated streams for dec. non-trivial = the "
@@ -19,7 +19,8 @@ ASSUMPTIONS = ["min_match_len >= 4 (LZDiff::new traps below: u32 underflow of ke
                "target symbols satisfy sym_ok (= 0..30 with the generated constants); reference bytes arbitrary",
                "(ht_size as f64 / 0.7) as u64 is modelled as floor(10*count/7) (exact for count < 2^50); the theorems do not depend on it",
                "dev profile arithmetic (overflow checks on); release differs only for min_match_len < 4 and > 18-digit integers in malformed streams"]
-PROFILES = ["dev"]
+PROFILES = ["dev", "release"]
+PROFILES_QUICK = ["dev"]
 
 
 def hx(b):
@@ -218,12 +219,20 @@ def gen_cases(rng, tier):
     # ---- random and mutation-derived pairs
     npairs = 2500 if not thorough else 60000
     for k in range(npairs):
+        mml = _mml(rng)
         if not thorough:
-            maxlen = 3000 if k % 25 == 0 else 600
+            maxlen = 3000 if k % 23 == 0 else 600
+        elif k % 601 == 0:
+            maxlen, mml = 30000, rng.choice([14, 18, 20, 24, 32])   # the extracted model is list based: a small
+        elif k % 41 == 0:                                           # key on 30 kB costs minutes per case
+            maxlen = 4000
         else:
-            maxlen = 30000 if k % 200 == 0 else (6000 if k % 20 == 0 else 900)
+            maxlen = 900
         ref, tgt = _pair(rng, maxlen)
-        cs.append(f"enc {_mml(rng)} {hx(ref)} {hx(tgt)}")
+        cs.append(f"enc {mml} {hx(ref)} {hx(tgt)}")
+        if k % 3 == 0 and maxlen <= 4000:
+            cs.append(f"est {mml} {hx(ref)} {hx(tgt)} {rng.choice([0, 3, 20, 100, 1000000])}")
+            cs.append(f"cost {mml} {hx(ref)} {hx(tgt)} {k % 2}")
     # ---- edge / malformed stream
     for _ in range(300 if not thorough else 5000):
         # targets with bytes outside the symbol range (u8 overflow of b'A' + base, padding byte, ...)
